@@ -1,0 +1,220 @@
+//go:build verif
+// +build verif
+
+package account
+
+import (
+	"bytes"
+	"fmt"
+	"sort"
+	"strings"
+
+	"com.tuntun.rangers/node/src/common"
+	"com.tuntun.rangers/node/src/storage/rlp"
+	"com.tuntun.rangers/node/src/storage/trie"
+)
+
+// Verification hooks H6 (build tag verif only): read-only canonical dumps of the
+// in-memory representation of an AccountDB.  No behaviour of their own; nothing here
+// loads, caches or marks anything on the AccountDB that is dumped.
+
+func verifHex(b []byte) string {
+	if b == nil {
+		return "nil"
+	}
+	return fmt.Sprintf("%x", b)
+}
+
+func verifStorage(w *strings.Builder, tag string, s Storage) {
+	keys := make([]string, 0, len(s))
+	for k := range s {
+		keys = append(keys, k)
+	}
+	sort.Strings(keys)
+	for _, k := range keys {
+		fmt.Fprintf(w, "  %s %x=%s\n", tag, k, verifHex(s[k]))
+	}
+}
+
+func verifEntry(e transitionEntry) string {
+	switch ch := e.(type) {
+	case createObjectChange:
+		return fmt.Sprintf("createObject %x", ch.account[:])
+	case resetObjectChange:
+		return fmt.Sprintf("resetObject %x", ch.prev.address[:])
+	case suicideChange:
+		return fmt.Sprintf("suicide %x prev=%v prevbalance=%v", ch.account[:], ch.prev, ch.prevbalance)
+	case nonceChange:
+		return fmt.Sprintf("nonce %x prev=%d", ch.account[:], ch.prev)
+	case storageChange:
+		return fmt.Sprintf("storage %x key=%x prev=%s", ch.account[:], ch.key, verifHex(ch.prevalue))
+	case nftSetDefinitionChange:
+		return fmt.Sprintf("code %x prevhash=%x prev=%s", ch.account[:], ch.prevhash, verifHex(ch.prev))
+	case refundChange:
+		return fmt.Sprintf("refund prev=%d", ch.prev)
+	case addLogChange:
+		return fmt.Sprintf("addLog tx=%x", ch.txhash[:])
+	case touchChange:
+		return fmt.Sprintf("touch %x prev=%v prevDirty=%v", ch.account[:], ch.prev, ch.prevDirty)
+	case accessListAddAccountChange:
+		return fmt.Sprintf("alAddr %x", ch.address[:])
+	case accessListAddSlotChange:
+		return fmt.Sprintf("alSlot %x %x", ch.address[:], ch.slot[:])
+	case transientStorageChange:
+		return fmt.Sprintf("transient %x key=%x prev=%x", ch.account[:], ch.key[:], ch.prevalue[:])
+	default:
+		return fmt.Sprintf("%T", e)
+	}
+}
+
+// VerifDump renders the complete in-memory representation of adb canonically (sorted,
+// independent of map iteration order): every cached account object with its data fields,
+// cached/dirty storage (nil entries included) and flags, the dirty set, the journal
+// (entries with their saved previous values), the live snapshot ids, refund counter,
+// logs, access list and transient storage.  withJournalEntries=false prints only the
+// journal length.
+func VerifDump(adb *AccountDB, withJournalEntries bool) string {
+	var w strings.Builder
+	type kv struct {
+		a common.Address
+		o *accountObject
+	}
+	var objs []kv
+	adb.accountObjects.Range(func(k, v interface{}) bool {
+		objs = append(objs, kv{k.(common.Address), v.(*accountObject)})
+		return true
+	})
+	sort.Slice(objs, func(i, j int) bool { return bytes.Compare(objs[i].a[:], objs[j].a[:]) < 0 })
+	for _, e := range objs {
+		o := e.o
+		fmt.Fprintf(&w, "obj %x nonce=%d root=%x codehash=%x code=%s dirtyCode=%v suicided=%v touched=%v deleted=%v onDirtyNil=%v trieOpen=%v err=%v\n",
+			e.a[:], o.data.Nonce, o.data.Root[:], o.data.NFTSetDefinitionHash, verifHex(o.nftSet), o.dirtyNFTSet,
+			o.suicided, o.touched, o.deleted, o.onDirty == nil, o.trie != nil, o.dbErr)
+		verifStorage(&w, "cached", o.cachedStorage)
+		verifStorage(&w, "dirty", o.dirtyStorage)
+	}
+	var dirty []string
+	for a := range adb.accountObjectsDirty {
+		dirty = append(dirty, fmt.Sprintf("%x", a[:]))
+	}
+	sort.Strings(dirty)
+	fmt.Fprintf(&w, "dirtyset %s\n", strings.Join(dirty, ","))
+	fmt.Fprintf(&w, "journal len=%d\n", len(adb.transitions))
+	if withJournalEntries {
+		for i, e := range adb.transitions {
+			fmt.Fprintf(&w, "  j%d %s\n", i, verifEntry(e))
+		}
+	}
+	fmt.Fprintf(&w, "snapshots next=%d", adb.nextRevisionID)
+	for _, r := range adb.validRevisions {
+		fmt.Fprintf(&w, " (%d@%d)", r.id, r.journalIndex)
+	}
+	fmt.Fprintf(&w, "\nrefund %d\n", adb.refund)
+	var lk []string
+	for h := range adb.logs {
+		lk = append(lk, string(h[:]))
+	}
+	sort.Strings(lk)
+	fmt.Fprintf(&w, "logs size=%d\n", adb.logSize)
+	for _, k := range lk {
+		var h common.Hash
+		copy(h[:], k)
+		for _, l := range adb.logs[h] {
+			fmt.Fprintf(&w, "  log tx=%x addr=%x topics=%x data=%x index=%d txindex=%d\n", h[:], l.Address[:], l.Topics, l.Data, l.Index, l.TxIndex)
+		}
+	}
+	if adb.accessList != nil {
+		var al []string
+		for a, idx := range adb.accessList.addresses {
+			s := fmt.Sprintf("%x@%d", a[:], idx)
+			if idx >= 0 && idx < len(adb.accessList.slots) {
+				var sl []string
+				for k := range adb.accessList.slots[idx] {
+					sl = append(sl, fmt.Sprintf("%x", k[:]))
+				}
+				sort.Strings(sl)
+				s += "[" + strings.Join(sl, ",") + "]"
+			}
+			al = append(al, s)
+		}
+		sort.Strings(al)
+		fmt.Fprintf(&w, "accesslist nslots=%d %s\n", len(adb.accessList.slots), strings.Join(al, " "))
+	}
+	var ta []string
+	for a := range adb.transientStorage {
+		ta = append(ta, string(a[:]))
+	}
+	sort.Strings(ta)
+	for _, a := range ta {
+		var addr common.Address
+		copy(addr[:], a)
+		fmt.Fprintf(&w, "transient %x\n", addr[:])
+		verifStorage(&w, "t", adb.transientStorage[addr])
+	}
+	fmt.Fprintf(&w, "dbErr %v\n", adb.dbErr)
+	return w.String()
+}
+
+// VerifJournalLen returns the number of undo entries currently in the journal.
+func VerifJournalLen(adb *AccountDB) int { return len(adb.transitions) }
+
+// VerifLiveSnapshots returns the ids RevertToSnapshot currently accepts, oldest first.
+func VerifLiveSnapshots(adb *AccountDB) []int {
+	ids := make([]int, 0, len(adb.validRevisions))
+	for _, r := range adb.validRevisions {
+		ids = append(ids, r.id)
+	}
+	return ids
+}
+
+// VerifLeaf is one leaf of the account trie with the leaves of its storage trie.
+type VerifLeaf struct {
+	Addr     common.Address
+	Nonce    uint64
+	Root     common.Hash
+	CodeHash []byte
+	Storage  map[string][]byte
+	Err      string
+}
+
+// VerifLeaves lists every leaf of adb's current account trie (as it stands, normally
+// right after IntermediateRoot) together with the leaves of each account's storage trie.
+// A cached object's own storage trie is used when it is open (it may hold nodes that
+// are not in the node database yet), otherwise the trie is opened from the database.
+func VerifLeaves(adb *AccountDB) []VerifLeaf {
+	var out []VerifLeaf
+	it := trie.NewIterator(adb.trie.NodeIterator(nil))
+	for it.Next() {
+		var l VerifLeaf
+		l.Addr = common.BytesToAddress(it.Key)
+		var data Account
+		if err := rlp.DecodeBytes(it.Value, &data); err != nil {
+			l.Err = err.Error()
+			out = append(out, l)
+			continue
+		}
+		l.Nonce, l.Root, l.CodeHash = data.Nonce, data.Root, data.NFTSetDefinitionHash
+		l.Storage = map[string][]byte{}
+		var st Trie
+		if o, ok := adb.accountObjects.Load(l.Addr); ok && o.(*accountObject).trie != nil && o.(*accountObject).data.Root == data.Root {
+			st = o.(*accountObject).trie
+		} else {
+			t, err := adb.db.OpenStorageTrie(common.Hash{}, data.Root)
+			if err != nil {
+				l.Err = err.Error()
+				out = append(out, l)
+				continue
+			}
+			st = t
+		}
+		sit := trie.NewIterator(st.NodeIterator(nil))
+		for sit.Next() {
+			l.Storage[string(sit.Key)] = append([]byte{}, sit.Value...)
+		}
+		if sit.Err != nil {
+			l.Err = sit.Err.Error()
+		}
+		out = append(out, l)
+	}
+	return out
+}
